@@ -1,4 +1,6 @@
 #![allow(dead_code)]
+mod arr;
+mod cost;
 mod engine;
 mod props;
 mod supply_ref;
